@@ -162,6 +162,11 @@ func fltVal(r *vh.Rng) uint32 {
 // of the operand corners, carry-in pattern and its complement), mode 2: random.
 func vecCase(alu string, v vop, r *vh.Rng, mode int) Case {
 	g := newCase(alu, r)
+	execCorner := -1 // modes 3, 4, 5: grid operands with EXEC = 0, 1, 1<<63
+	if mode >= 3 {
+		execCorner = mode - 3
+		mode = execCorner % 2
+	}
 	grid := mode < 2
 	// per-lane source values
 	var val [3][64]uint64
@@ -378,6 +383,10 @@ func vecCase(alu string, v vop, r *vh.Rng, mode int) Case {
 		case 2:
 			g.c.Pre.EXEC = uint64(1) << uint(r.Intn(64))
 		}
+	}
+	if execCorner >= 0 {
+		g.c.Pre.EXEC = []uint64{0, 1, 1 << 63}[execCorner]
+		g.c.Sparse = true
 	}
 	lit := []uint32{}
 	if g.lit {
